@@ -231,7 +231,8 @@ fn ty_example(
                 let value = transformer.resolve(f.id)?;
                 fields.push(value)
             }
-            Ok(quote!(( #(#fields),* )))
+            // trailing commas: a one-element tuple is `(x,)`, not the parenthesised expression `(x)`
+            Ok(quote!(( #(#fields,)* )))
         }
         scale_info::TypeDef::Primitive(def) => Ok(primitive_example(
             def,
